@@ -20,6 +20,7 @@ NATIVE_ENV = {
     'pow2': lambda k: 2 ** k,
     'implies': lambda a, b: (not a) or b,
     'ite': lambda c, a, b: a if c else b,
+    'pmod': lambda a, b: a % b,
     'tb_byte': lambda u, n, little, j: u.to_bytes(n, 'little' if little else 'big')[j],
 }
 
@@ -58,7 +59,7 @@ def prove_lemma(repo, reg, name, timeout_ms):
         for _ in range(20000):
             env = {}
             for x in names:
-                lo, hi = lm.ranges.get(x, (-2 ** 70, 2 ** 70)) if getattr(lm, 'ranges', None) else (-2 ** 70, 2 ** 70)
+                lo, hi = (lm.sample.get(x) or lm.ranges.get(x) or (-2 ** 70, 2 ** 70))
                 env[x] = rnd.choice([rnd.randint(lo, hi), rnd.randint(max(lo, -300), min(hi, 300))])
             try:
                 if all(native_eval(h, env) for h in lm.hyps):
